@@ -318,9 +318,10 @@ Definition date_bin_rd := date_bin_gen true.
 (* the code before the repair (`if n >= source`) *)
 Definition date_bin_rd_old := date_bin_gen false.
 
-(* date_bin(str, date, date) = date_bin(interval(stride), source, origin); interval None -> AttributeError *)
+(* date_bin(str, date, date): stride = interval(stride); if stride is None: return None;
+   return date_bin(stride, source, origin) *)
 Definition date_bin (stride : list Z) (source origin : Z) : value :=
-  match interval stride with None => VErr 5 | Some r => date_bin_rd r source origin end.
+  match interval stride with None => VNull | Some r => date_bin_rd r source origin end.
 
 (* range of the exhaustive statements: 1900-01-01 .. 2100-12-31 *)
 Definition LO := 693596.
